@@ -219,7 +219,7 @@ EXPECTED_BRANCHES = [
 ]
 
 PINNED = {
-    'line comment': 'p += 2; while (*p != \'\\n\') p++; has_space = true; continue;',
+    'line comment': 'p += 2; while (*p && *p != \'\\n\') p++; has_space = true; continue;',
     'block comment': 'char *q = strstr(p + 2, "*/"); if (!q) error_at(p, "unclosed block comment"); p = q + 2; has_space = true; continue;',
     'newline': 'p++; at_bol = true; has_space = false; continue;',
     'white space': 'p++; has_space = true; continue;',
@@ -381,9 +381,10 @@ def gen_tokenize(src):
          'c = decode_utf8(&q, p); if (!is_ident2(c)) return p - start; p = q; }'),
         ('string_literal_end', r'^static\s+char\s*\*\s*string_literal_end\s*\(\s*char\s*\*\s*p\s*\)\s*\{',
          'char *start = p; for (; *p != \'"\'; p++) { if (*p == \'\\n\' || *p == \'\\0\') error_at(start, "unclosed string literal"); '
-         'if (*p == \'\\\\\') p++; } return p;'),
+         'if (*p == \'\\\\\' && p[1]) p++; } return p;'),
         ('read_char_literal', r'^static\s+Token\s*\*\s*read_char_literal\s*\(',
-         'char *p = quote + 1; if (*p == \'\\0\') error_at(start, "unclosed char literal"); int c; if (*p == \'\\\\\') '
+         'char *p = quote + 1; if (*p == \'\\0\') error_at(start, "unclosed char literal"); int c; '
+         'if (*p == \'\\\\\' && p[1] == \'\\0\') error_at(start, "unclosed char literal"); if (*p == \'\\\\\') '
          'c = read_escaped_char(&p, p + 1); else c = decode_utf8(&p, p); char *end = strchr(p, \'\\\'\'); if (!end) '
          'error_at(p, "unclosed char literal"); Token *tok = new_token(TK_NUM, start, end + 1); tok->val = c; tok->ty = ty; return tok;'),
     ]
